@@ -144,6 +144,26 @@ func runC19(c *core.Ctx) {
 		}, nil)
 		c.Check(min >= 1, "R1", d.name+"/delegates", p.Pos(d.fn.Pos()), "every path reaches fpgo.Sort (the single stable sort)", d.name+" has a path that does not sort through fpgo.Sort")
 	}
+	// the direction wrappers pass the direction they are named after
+	for _, w := range []struct {
+		name string
+		asc  bool
+	}{{"SortOrderedAscending", true}, {"SortOrderedDescending", false}} {
+		f := p.Func(p.Fpgo, w.name)
+		so := p.Func(p.Fpgo, "SortOrdered")
+		if f == nil || so == nil {
+			continue
+		}
+		okDir := false
+		core.Instrs(f, func(ins ssa.Instruction) {
+			if call, ok := ins.(*ssa.Call); ok && core.Callee(&call.Call) == so && len(call.Call.Args) >= 1 {
+				if k, isK := core.Resolve(call.Call.Args[0]).(*ssa.Const); isK && isTrueConst(k) == w.asc {
+					okDir = true
+				}
+			}
+		})
+		c.Check(okDir, "R2", w.name+"/direction", p.Pos(f.Pos()), fmt.Sprintf("calls SortOrdered(%v, …)", w.asc), w.name+" does not ask SortOrdered for the direction it is named after")
+	}
 	// ---- R2: SortOrdered closures
 	if so := p.Func(p.Fpgo, "SortOrdered"); so == nil || sortFn == nil {
 		c.Unknown("R2", "SortOrdered", "-", "function not found")
